@@ -125,7 +125,8 @@ impl Pool {
                     }
                 };
                 let p = Packet::Ver(Ver {
-                    reqi: RequestId((c % 256) as u8),
+                    // a third of the version packets are unsolicited (reqi 0)
+                    reqi: RequestId(if c % 3 == 0 { 0 } else { (c % 256) as u8 }),
                     insimver: v,
                     product: "S3".into(),
                     ..Default::default()
